@@ -1,0 +1,24 @@
+//go:build verif
+
+// Contracts for the deductive verifier in /verif (comment-only; compiled only with -tags verif).
+package chain
+
+// C04 across a restart: the replay cache is rebuilt from the stable chain.  Walking back from the stable head, EVERY block is
+// handed to the guard as long as all blocks between it and the head lie within the maximum transaction lifetime of the head's
+// time -- the cache's block index is also the ancestry chain its lookups walk, so a block that is left out (even an empty one)
+// hides everything below it.  gh("guarded", h) records that the block at height h was handed to TxGuard.SaveBlock.
+// the age test of the code is a uint32 subtraction: it wraps for a block younger than the head
+//@ spec func age(st uint32, t uint32) mathint = ite(int(st) >= int(t), int(st) - int(t), int(st) - int(t) + 4294967296)
+//@ spec func timeAt(bc *BlockChain, h int) uint32 = bc.GetBlockByHeight(uint32(h)).Time()
+//@ func (*BlockChain).GetBlockByHeight   pure trusted
+//@   opt heap-independent
+//@   ensures result != nil ==> result.Header != nil && result.Header.Height == height
+
+//@ func (*BlockChain).initTxPool
+//@   props C04
+//@   requires bc != nil && txGuard != nil && (block != nil ==> block.Header != nil && bc.GetBlockByHeight(block.Header.Height) == block)
+//@   let top = int(block.Header.Height); st = block.Header.Time
+//@   invariant @loop 0: iter != nil && iter.Header != nil && iter == bc.GetBlockByHeight(height) && int(height) <= top && stableTime == st
+//@   invariant @loop 0: forall(h, int(height) + 1, top + 1, gh("guarded", h) == 1)
+//@   invariant @loop 0: forall(k, int(height) + 1, top + 1, age(st, timeAt(bc, k)) <= int(params.MaxTxLifeTime))
+//@   ensures block != nil ==> forall(h, 0, top + 1, forall(k, h, top + 1, age(st, timeAt(bc, k)) <= int(params.MaxTxLifeTime)) ==> gh("guarded", h) == 1)
